@@ -752,6 +752,38 @@ def unicode_word(s):
 
 
 # ---------------------------------------------------------------- the check
+def probe_custom_letters(ctx, stats):
+    """RegexGenerator(random, alphabet={"letters": ...}) - the alphabet `.` and negated classes draw from is a
+    constructor option: whatever letters the caller supplies (non-ASCII, control characters), a negated class of
+    literals and ranges excludes exactly what it names, and the result matches the entire pattern.  (Categories are
+    left out: \\d / \\w under a caller's own digit / word alphabets are not part of the statement.)"""
+    Random, RegexGenerator, SortedSetRandom = _impl()
+    r = ctx.rng
+    cases = [("\u0430\u0431\u0432\u0433\u0434\u0435", ["[^\u0430-\u0432]", "[^\u0430-\u0432]{3}", "x[^\u0433]y", "[^\u0435\u0430]+", "."]),
+             ("ab\u00e9\u00e8\u00ea", ["[^\u00e0-\u00ff]+", "[^ab]{2}", "[^\u00e9]", "[^a-b\u00e8-\u00ea]", "[^\x00-\x7f]"]),
+             ("\t\n\r xyz", ["[^\x00-\x1f]{3}", "[^ -~]", "[^\t\n]{2}", "[^x-z\r]"]),
+             ("\U0001F600\U0001F601\u4e2d\u6587", ["[^\u4e00-\u9fff]", "[^\U0001F600]{2}", "[^\u6587\U0001F601]"]),
+             ("01", ["[^0]", "[^1]{4}", "[^2-9]", "[^0-1]?x"])]
+    n = 0
+    for letters, patterns in cases:
+        for p in patterns:
+            for mode in ("min", "max", "rand", "rand", "rand"):
+                g = RegexGenerator(SortedSetRandom(), alphabet={"letters": letters}, max_repeat=3)
+                pol = tapemod.Policy(r, mode)
+                with tapemod.scripted(pol):
+                    try:
+                        out = ("ok", g.generate(p))
+                    except Exception as e:  # noqa
+                        out = ("raise", e)
+                n += 1
+                if out[0] == "ok" and re.fullmatch(p, out[1]) is None:
+                    ctx.violation("with a caller-supplied letters alphabet the generated string does not match the pattern",
+                                  {"kind": "input", "pattern": p, "letters": letters, "generated": out[1], "tape": list(pol.used),
+                                   "expected": "a string re.fullmatch accepts, or an error"})
+                    return n
+    return n
+
+
 def probe_history_and_long(ctx, stats):
     """(a) generators are independent of one another: building and using a generator with a custom
     alphabet does not change what another generator - or fake() - produces; (b) explicit repeat
@@ -892,6 +924,7 @@ def run(ctx):
     modelled = [x for x in runs if x.cre is not None]
     terms = [x.term() for x in modelled]
     stats["history_and_long_probes"] = probe_history_and_long(ctx, stats)
+    stats["custom_letters_probes"] = probe_custom_letters(ctx, stats)
     bad = common.eval_cases(ctx.workdir, "c09gen", terms, "rgcase", "regen_case_ok",
                             extra_requires="Require Import D42.PyRandom D42.RegexGen D42Gen.GenConsts.", per_file=300)
     for i in bad[:10]:
